@@ -65,3 +65,19 @@ def divModDef (q r a : Term) (d : Int) : Term :=
              .app .leq [.app (.num 0) [], r],
              .app .leq [r, .app (.num ((d.natAbs : Int) - 1 : Int)) []]]
 end Osmt.Rewrite
+
+namespace Osmt.Rewrite
+open Osmt
+/-- max-arity flattening (`rewriteMaxArityClassic`): a conjunct that is itself a conjunction is replaced by its conjuncts
+(the same for disjunctions) -/
+def flattenArgs (o : Op) : List Term → List Term
+  | [] => []
+  | (.app o' as) :: r => if o' = o then as ++ flattenArgs o r else (.app o' as) :: flattenArgs o r
+
+def flatten (o : Op) (args : List Term) : Term := .app o (flattenArgs o args)
+
+/-- the fact learnt from two equality chains that meet at both ends (`learnEqTransitivity`): whichever chain holds, x = z -/
+def diamondFact (x y1 y2 z : Term) : Term :=
+  .app .or [.app .not [.app .or [.app .and [.app .eq [x, y1], .app .eq [y1, z]], .app .and [.app .eq [x, y2], .app .eq [y2, z]]]],
+            .app .eq [x, z]]
+end Osmt.Rewrite
